@@ -165,3 +165,43 @@ pub fn evalx(case: &J) -> Outcome {
     oracle_rows(&mut out, &t, &ft, &e, rows, &cls);
     out
 }
+
+// ------------------------------------------------------------------------------------------------
+// stream `joinnarrow`: the column types of a Join after its ON predicate, for the four kinds of join, against `Qrlew.joinNarrow`
+// (the function `C10.join_matched_sound` / `join_preserved_side_untouched` are about)
+
+pub fn gen_join(rng: &mut Rng, k: usize, _tier: &str) -> J {
+    let (nl, nr) = (1 + rng.below(2) as usize, 1 + rng.below(2) as usize);
+    let cols: Vec<Vec<[i64; 2]>> = (0..nl + nr).map(|_| { let n = 1 + rng.below(3); (0..n).map(|_| { let a = rng.range(-4, 10); let b = if rng.chance(1, 3) { a } else { rng.range(-4, 10) }; [a.min(b), a.max(b)] }).collect() }).collect();
+    json!({"cols": cols, "nl": nl, "pred": gen_pred(rng, 1 + (k % 3) as u32, nl + nr), "kind": *rng.pick(&["inner", "left", "right", "full"])})
+}
+
+pub fn eval_join(case: &J) -> Outcome {
+    use qrlew::{builder::{Ready, With}, relation::{Join, Relation, Variant as _}};
+    use std::sync::Arc;
+    let mut out = Outcome::new();
+    let nl = case["nl"].as_u64().unwrap() as usize;
+    let cols: Vec<data_type::Integer> = case["cols"].as_array().unwrap().iter().map(|c| c.as_array().unwrap().iter().fold(data_type::Integer::empty(), |a, p| a.union_interval(p[0].as_i64().unwrap(), p[1].as_i64().unwrap()))).collect();
+    let table = |name: &str, range: std::ops::Range<usize>| -> Relation { Relation::table().name(name).schema(range.map(|i| (format!("c{i}"), DataType::Integer(cols[i].clone()))).collect::<qrlew::relation::Schema>()).size(10).build() };
+    let (l, r) = (table("l", 0..nl), table("r", nl..cols.len()));
+    fn qual(p: &J, nl: usize) -> Expr {
+        let o = |o: &J| -> Expr { if jtag(o) == "col" { let i = o[1].as_u64().unwrap() as usize; Expr::qcol(if i < nl { Join::left_name() } else { Join::right_name() }.to_string(), format!("c{i}")) } else { Expr::val(o[1].as_i64().unwrap()) } };
+        match jtag(p) { "gt" => Expr::gt(o(&p[1]), o(&p[2])), "ge" => Expr::gt_eq(o(&p[1]), o(&p[2])), "lt" => Expr::lt(o(&p[1]), o(&p[2])), "le" => Expr::lt_eq(o(&p[1]), o(&p[2])), "eq" => Expr::eq(o(&p[1]), o(&p[2])),
+            "and" => Expr::and(qual(&p[1], nl), qual(&p[2], nl)), "or" => Expr::or(qual(&p[1], nl), qual(&p[2], nl)), _ => Expr::not(Expr::not(qual(&p[1], nl))) }
+    }
+    let on = qual(&case["pred"], nl);
+    let kind = case["kind"].as_str().unwrap();
+    out.tag(&format!("kind={kind}"));
+    let built = guarded(|| -> Result<Relation, String> { let b = Relation::join(); let b = match kind { "inner" => b.inner(on.clone()), "left" => b.left_outer(on.clone()), "right" => b.right_outer(on.clone()), _ => b.full_outer(on.clone()) };
+        b.left(Arc::new(l.clone())).right(Arc::new(r.clone())).try_build().map_err(|e: qrlew::relation::Error| e.to_string()) });
+    let j = match built { Ok(Ok(j)) => j, Ok(Err(e)) => { out.tag("trivial"); out.imp = json!({"err": e}); return out; }
+        Err((loc, msg)) => { out.tag("trivial"); out.imp = json!("panic"); out.fail(&format!("C18/joinnarrow/panic/{}", site(&loc, &msg)), format!("{kind} join on {on}: {msg}")); return out; } };
+    // the declared column types, side by side (the nullable wrapper an outer join puts on a side is not part of the comparison)
+    let ivs = |t: &DataType| -> J { let t = match t { DataType::Optional(o) => o.data_type().clone(), t => t.clone() }; match t { DataType::Integer(i) => json!(i.iter().map(|[a, b]| json!([a, b])).collect::<Vec<_>>()), other => json!({"other": other.to_string()}) } };
+    let fields: Vec<J> = j.schema().iter().map(|f| { use qrlew::data_type::DataTyped as _; ivs(&f.data_type()) }).collect();
+    if fields.len() != cols.len() { out.tag("trivial"); out.imp = json!({"err": "field count"}); return out; }
+    let unchanged = fields.iter().zip(cols.iter()).all(|(f, c)| *f == json!(c.iter().map(|[a, b]| json!([a, b])).collect::<Vec<_>>()));
+    if unchanged { out.tag("trivial"); } else { out.tag("narrowed"); }
+    out.imp = json!({"left": fields[..nl].to_vec(), "right": fields[nl..].to_vec()});
+    out
+}
